@@ -50,10 +50,10 @@ theorem set_visit (choices : List Choice) (v : Nat) (name enc : String) (o : Opt
 
 /-- visiting an enum value yields the name of a valid value with that value, or `unknown` -/
 theorem enum_visit (values : List ValidValue) (prim : String) (v : Nat) (name enc : String) (o : Option Nat) (a : Attrs) :
-    (∃ x ∈ values, validValueNum (prim = "char") x.value = some v ∧ enumSuffix (.enum name enc o values a) prim v = "/" ++ x.name)
-    ∨ ((∀ x ∈ values, validValueNum (prim = "char") x.value ≠ some v) ∧ enumSuffix (.enum name enc o values a) prim v = "/unknown") := by
+    (∃ x ∈ values, validValueNum prim x.value = some v ∧ enumSuffix (.enum name enc o values a) prim v = "/" ++ x.name)
+    ∨ ((∀ x ∈ values, validValueNum prim x.value ≠ some v) ∧ enumSuffix (.enum name enc o values a) prim v = "/unknown") := by
   simp only [enumSuffix]
-  cases h : values.find? (fun x => validValueNum (prim = "char") x.value = some v) with
+  cases h : values.find? (fun x => validValueNum prim x.value = some v) with
   | some x =>
     left
     refine ⟨x, List.mem_of_find?_eq_some h, ?_, by simp⟩
